@@ -212,7 +212,8 @@ RULES = [
     ('missing end in repeat', 'repeat 2 begin on all'), ('unbalanced brace', 'hue {1 + 2'), ('unbalanced brace 2', 'hue 1 + 2}'),
     ('unbalanced bracket', 'hue [f 1'), ('unbalanced parenthesis', 'hue {(1 + 2}'), ('unbalanced parenthesis 2', 'hue {1 + 2)}'),
     ('malformed time pattern', 'time at 12:5 on all'), ('malformed time pattern 2', 'time at 25:00 on all'),
-    ('malformed time pattern 3', 'time at **:00 on all'), ('minus before time pattern', 'time at -1:00 on all'),
+    ('malformed time pattern 3', 'time at **:00 on all'), ('malformed time pattern in define', 'define tp 25:00'),
+    ('malformed time pattern in assign', 'assign tp 12:60'), ('malformed time pattern as macro', 'define tp 3*:00 time at tp on all'), ('minus before time pattern', 'time at -1:00 on all'),
     ('minus before time pattern value', 'assign t -1:00'), ('stray end', 'on all end'), ('stray else', 'on all else off all'),
     ('missing operand', 'set'), ('missing value', 'hue'), ('string as number', 'hue "abc"'), ('zone on power', 'on "Z" zone 1'),
 ]
